@@ -200,6 +200,19 @@ fn hlt_sites() -> Vec<fn()> {
     macro_rules! sites { ($($k:literal)*) => { vec![$(hlt_site::<$k> as fn()),*] }; }
     sites!(0 1 2 3 4 5 6 7 8 9 10 11 12 13 14 15 16 17 18 19 20 21 22 23 24 25 26 27 28 29 30 31 32 33 34 35 36 37 38 39 40 41 42 43 44 45 46 47 48 49 50 51 52 53 54 55 56 57 58 59 60 61 62 63)
 }
+/// enable() and disable() are one instruction each ("change nothing else")
+fn flag_op_audit(r: &mut Rep) {
+    #[inline(never)]
+    fn en() { interrupts::enable() }
+    #[inline(never)]
+    fn dis() { interrupts::disable() }
+    #[inline(never)]
+    fn eh() { interrupts::enable_and_hlt() }
+    crate::audit::audit_tiny(r, "C17", "enable", en as usize as u64, 1, || en());
+    crate::audit::audit_tiny(r, "C17", "disable", dis as usize as u64, 1, || dis());
+    crate::audit::audit_tiny(r, "C17", "enable_and_hlt", eh as usize as u64, 2, || eh());
+}
+
 fn hlt_placement(r: &mut Rep) {
     let c = cpu();
     let mut residues = std::collections::BTreeSet::new();
@@ -388,6 +401,8 @@ pub fn run(a: &Args) {
             let mut pos = 0;
             let tree = parse(t[1].as_bytes(), &mut pos);
             program_case(&mut r, &tree, t[2] == "1", u64::from_str_radix(t[3].trim_start_matches("0x"), 16).unwrap());
+        } else if t[0] == "audit" {
+            flag_op_audit(&mut r);
         } else if t[0] == "hltsite" {
             hlt_placement(&mut r);
         } else if t[0] == "repeat" {
@@ -468,6 +483,7 @@ pub fn run(a: &Args) {
     }
     if a.shard == 2 % a.nshards {
         guarded(&mut r, "C17|enable_and_hlt|unexpected-panic", || "hltsite".into(), |r| hlt_placement(r));
+        guarded(&mut r, "C17|enable/disable|unexpected-panic", || "audit".into(), |r| flag_op_audit(r));
     }
     if a.shard == 1 % a.nshards {
         guarded(&mut r, "C17|without_interrupts|unexpected-panic", || "repeat".into(), |r| repetition(r));
